@@ -1,0 +1,11 @@
+//go:build verif
+
+// Contracts for the exovc verifier (/verif). Comment-only: with the tag off this file is not part
+// of the package, with the tag on it declares nothing.
+package aggregator
+
+// in-memory parameter getters of the aggregator context: no effect on chain state; MaxSizePrices >= 1
+// (params validation), assumed
+//@ func (*AggregatorContext).GetParamsMaxSizePrices
+//@   flag assumed
+//@   ensures r0 >= 1
